@@ -224,6 +224,8 @@ def compact(n):
     for k in ("i", "s", "b"):
         if k in n:
             return n[k]
+    if "fq" in n:
+        return n["fq"][0] / float(2 ** n["fq"][1])
     if "z" in n:
         return None
     return n.get("x")
